@@ -69,10 +69,13 @@ def gen_points(rng, nd, maxn=14, span=6):
     return pos, wk, fb, kind
 
 
-def make_stat(pos, wk, fb):
+def make_stat(pos, wk, fb, idt=None):
     vals = np.array([np.nan if k is None else k / float(2 ** fb) for k in wk])
     nd = len(pos[0])
     idx = tuple(np.array([c[i] for c in pos]) for i in range(nd))
+    if idt and (not idt.startswith('u') or all(x >= 0 for c in pos for x in c)):
+        # positions in another integer / float type than np.where's int64 (e.g. coordinates read from a table)
+        idx = tuple(a_.astype(idt) for a_ in idx)
     return ScalarStatistic(vals, idx)
 
 
@@ -89,7 +92,8 @@ def gen_item_C10(rng, idx, tier):
     calls = ['mom0', 'mom1', 'mom2', 'along', 'paxes', 'count']
     rng.shuffle(calls)
     return {'nd': nd, 'pos': [list(c) for c in pos], 'wk': wk, 'fb': fb, 'kind': kind, 'dir': dirv, 'shift': shift,
-            'scale': rng.choice([2, -1, -3, 0.5]), 'calls': calls, 'others': rng.randint(0, 2)}
+            'scale': rng.choice([2, -1, -3, 0.5]), 'calls': calls, 'others': rng.randint(0, 2),
+            'idt': rng.choice([None, None, None, 'uint8', 'uint16', 'uint64', 'int16', 'int32', 'float64', 'float32'])}
 
 
 def stat_results(st, dirv):
@@ -107,7 +111,9 @@ def eval_C10(item):
     wk, fb = item['wk'], item['fb']
     if any(k is None for k in wk):
         res['tags'].append('nan')
-    st = make_stat(pos, wk, fb)
+    st = make_stat(pos, wk, fb, item.get('idt'))
+    if item.get('idt'):
+        res['tags'].append('idx:' + item['idt'])
     # history: several live statistic objects, calls interleaved in the item's order
     import random
     others = [make_stat(*gen_points(random.Random(1000 * len(pos) + i), nd)[:3]) for i in range(item['others'])]
@@ -185,7 +191,7 @@ def eval_C10(item):
             res['pred'].append('mom2_along depends on length/sign of the direction: %r vs %r' % (a2, got['along']))
         # translation
         sh = item['shift']
-        st3 = make_stat([tuple(c[i] + sh[i] for i in range(nd)) for c in pos], wk, fb)
+        st3 = make_stat([tuple(c[i] + sh[i] for i in range(nd)) for c in pos], wk, fb, item.get('idt'))
         t1 = [float(x) for x in st3.mom1()]
         t2 = np.array(st3.mom2(), dtype=float)
         for i in range(nd):
@@ -902,6 +908,9 @@ def gen_item_C12(rng, idx, tier):
         mode = 'periodic'
         nd = 2
     ops = [ph.gen_prune_op(rng, case, allow_crits=False)] if rng.random() < 0.4 else []
+    if rng.random() < 0.3:
+        # catalogs of dendrograms that were saved and loaded (and possibly pruned before or after)
+        ops.insert(rng.randint(0, len(ops)), ('reload', rng.choice(['fits', 'hdf5'])))
     allf = ['major_sigma', 'minor_sigma', 'radius', 'area_ellipse', 'area_exact', 'position_angle', 'x_cen', 'y_cen', 'flux'] + \
         (['v_rms', 'v_cen'] if nd == 3 else [])
     fields = None if rng.random() < 0.4 else rng.sample(allf, rng.randint(1, len(allf)))
